@@ -101,6 +101,41 @@ func TestC12_CompactionPreservesReads(t *testing.T) {
 	})
 }
 
+// deepCfg builds trees with three or more populated levels (small level sizes, several rounds of
+// sizeable fills pushed down), on which deletes / TTL entries / overwrites are then compacted level by level.
+func deepCfg(ttl bool) GenCfg {
+	return GenCfg{DB: dbx.GenCfg{AllowManaged: true, KeepVersions: []int{1, 1, 2, 0}}, MinOps: 8, MaxOps: 30, MinKeys: 4, MaxKeys: 10, TTL: ttl, Discard: true, BigValues: true,
+		Weights: map[string]int{"deepen": 8, "txn": 8, "fill": 2, "flush": 4, "compact": 10, "clock": 2, "begin": 2, "get": 2, "iter": 1, "discard": 1, "l0shape": 1, "reopen": 1},
+		FixSpec: func(s *dbx.Spec) {
+			s.MaxLevels = 4
+			s.BaseLevelSize = 1 << 12
+			s.LevelSizeMultiplier = 2
+			s.BaseTableSize = 1 << 11
+			s.MemTableSize = 1 << 15
+			s.InMemory = false
+		}}
+}
+
+func TestC12_DeepLevels(t *testing.T) {
+	runProp(t, propDef{id: "C12", part: "deep_levels",
+		rule: "as part 'compaction' but on trees with >=3 populated levels (MaxLevels 4, 4 KiB base level, multiplier 2, 2 KiB tables; 'deepen' macros push several rounds of sizeable fills down), so that versions of one key live two or more levels apart while deletes, expired entries and overwrites are compacted level by level (level-to-level picks, overlap checks against deeper levels). Non-trivial = >=3 levels were populated and a compaction ran after a delete/overwrite.",
+		cfg:  deepCfg(true),
+		nontrivial: func(s Stats, p Program) bool {
+			return s.LevelsMax >= 3 && s.CompactAfterDelete+s.CompactAfterExpiry > 0
+		},
+	})
+}
+
+func TestC33_ExpiryDeepLevels(t *testing.T) {
+	runProp(t, propDef{id: "C33", part: "expiry_deep_levels",
+		rule: "as part 'expiry' but on trees with >=3 populated levels (see C12 part deep_levels): expired newest versions sit above older live versions that are two or more levels deeper when compactions run. Non-trivial = >=3 levels populated, an entry observed expired and a compaction after that.",
+		cfg:  deepCfg(true),
+		nontrivial: func(s Stats, p Program) bool {
+			return s.LevelsMax >= 3 && s.ExpiredObserved > 0 && s.CompactAfterExpiry > 0
+		},
+	})
+}
+
 func TestC12_L0ToL0(t *testing.T) {
 	runProp(t, propDef{id: "C12", part: "l0_to_l0",
 		rule: "as part 'compaction' but aimed at worker 0's L0->L0 compactions: 8-16 KiB memtables with inline values up to 1 KiB, 'l0big' macros (four sizeable L0 tables merged into one table of >= 2x the memtable size, which later L0->L0 picks leave out), 'l0l0'/'l0shape' macros, deletes and overwrites between them, young (not yet aged) tables next to aged ones. Non-trivial = >=2 L0->L0 compactions ran, with deletes or overwrites committed between them.",
